@@ -8,7 +8,7 @@ use crate::model::Ins;
 use crate::obs::{self, fmt_obs, slot_of};
 use crate::ops::{self, guarded, Outcome};
 use crate::payload::Payload;
-use crate::step::{Failure, Props, C01, C02, C05, C07, C10};
+use crate::step::{Failure, Props, C01, C02, C04, C05, C06, C07, C08, C10, C11, C12};
 use indextree::{Arena, NodeId};
 use rayon::prelude::*;
 use std::collections::HashSet;
@@ -199,12 +199,25 @@ pub struct FreeReport {
 /// reported live, and the new node does not report itself removed.
 fn alloc_judge(s: &FState, op: FOp, n: &FState, out: &Outcome) -> Vec<Failure> {
     let mut v = Vec::new();
+    // a removal that returns normally has removed its node (C04), for good (C06), and made the slot
+    // available or retired it (C07); the node takes no part in any tree (C12)
+    if let (FOp::Remove(x) | FOp::RemoveSubtree(x), Outcome::Unit) = (op, out) {
+        if live_by_flag(n, x) || !guarded(|| s.cur[x].is_removed(&n.arena)).unwrap_or(false) {
+            v.push(Failure {
+                props: C04 | C06 | C07 | C12,
+                judge: "removal",
+                shaping: false,
+                sig: format!("removal|{}|free|returned-but-node-not-removed", if matches!(op, FOp::Remove(_)) { "remove" } else { "remove_subtree" }),
+                detail: format!("{} returned normally but the node still reports live; arena before: {:?}, after: {:?}", op.text(), s.arena, n.arena),
+            });
+        }
+    }
     if !matches!(op, FOp::New | FOp::AppendValue(_)) {
         return v;
     }
     let mut push = |kind: &str, detail: String| {
         v.push(Failure {
-            props: C07 | if kind == "allocation-panicked" { C05 } else { 0 },
+            props: C07 | match kind { "allocation-panicked" => C05, "new-node-reports-removed" => C11 | C06 | C08, "id-issued-again" => C06, "occupied-slot-handed-out" => C08, _ => 0 },
             judge: "allocation",
             shaping: false,
             sig: format!("allocation|{}|free|{kind}", if matches!(op, FOp::New) { "new_node" } else { "append_value" }),
@@ -215,9 +228,13 @@ fn alloc_judge(s: &FState, op: FOp, n: &FState, out: &Outcome) -> Vec<Failure> {
         Outcome::Panic(m) => push("allocation-panicked", format!("{} panicked: {m}; arena before: {:?}", op.text(), s.arena)),
         Outcome::Id(id) => {
             let x = slot_of(*id);
+            if x < s.cur.len() && s.cur[x] == *id {
+                push("id-issued-again", format!("{} returned {}, the id already issued for that slot; arena before: {:?}", op.text(), obs::fmt_id(Some(*id)), s.arena));
+            }
             if x < s.arena.count() && live_by_flag(s, x) {
                 push("occupied-slot-handed-out", format!("{} returned {} although slot {} held a node the arena reported live; arena before: {:?}", op.text(), obs::fmt_id(Some(*id)), x + 1, s.arena));
-            } else if !live_by_flag(n, x) {
+            }
+            if !live_by_flag(n, x) {
                 push("new-node-reports-removed", format!("the node {} just created by {} reports is_removed(); arena before: {:?}", obs::fmt_id(Some(*id)), op.text(), s.arena));
             }
         }
@@ -348,10 +365,11 @@ pub fn explore(n_max: usize, a_max: usize, target: Props, threads: usize, deadli
                                     path: Vec::new(),
                                     op: None,
                                     note: Some(op.text()),
+                                    removed_involved: false,
                                 });
                             }
                             let (n, out) = apply(s, op);
-                            let tfails = if target & C07 != 0 { alloc_judge(s, op, &n, &out) } else { Vec::new() };
+                            let tfails = if target & (C04 | C06 | C07 | C08 | C11 | C12) != 0 { alloc_judge(s, op, &n, &out) } else { Vec::new() };
                             {
                                 let slot = rayon::current_thread_index().map(|i| i + 1).unwrap_or(0).min(129);
                                 *crate::explore::watch_slots()[slot].lock().unwrap() = None;
@@ -417,10 +435,15 @@ pub fn explore(n_max: usize, a_max: usize, target: Props, threads: usize, deadli
 /// iterators pulled in any front/back pattern yield the elements of their own forward sequence,
 /// front pulls in forward order, back pulls in backward order, each exactly once, then `None`.
 pub fn c10_law(arena: &Arena<Payload>, obs: &[obs::SlotObs]) -> Vec<Failure> {
+    c10_law_on(arena, obs, None)
+}
+
+/// The law for the live nodes in the slots `only` (all live nodes if None).
+pub fn c10_law_on(arena: &Arena<Payload>, obs: &[obs::SlotObs], only: Option<&[usize]>) -> Vec<Failure> {
     let mut out = Vec::new();
     let n = obs.len();
     for (x, o) in obs.iter().enumerate() {
-        if o.removed {
+        if o.removed || only.map(|k| !k.contains(&x)).unwrap_or(false) {
             continue;
         }
         let id = o.id;
